@@ -12,8 +12,8 @@ from .numbering import finish
 BACKENDS = ["c", "c-skel", "cpp", "cpp-skel", "rust", "java"]
 
 
-def run_variant(ctx, main_arg, inc_args, backend, outpath, cwd):
-    cmd = [ctx.idlc["debug"], main_arg] + E.BACKENDS[backend]
+def run_variant(ctx, main_arg, inc_args, backend, outpath, cwd, extra=()):
+    cmd = [ctx.idlc["debug"], main_arg] + E.BACKENDS[backend] + list(extra)
     for d in inc_args:
         cmd += ["-I", d]
     cmd += ["-o", outpath]
@@ -132,11 +132,22 @@ def run(ctx, prop):
                 variants.append(("rel-from-parent", os.path.join("src", "main.idl"), [os.path.join("src", d) for d in inc],
                                  os.path.dirname(rootA)))
                 snaps = []
+                # the same flags for every run of a (case, backend): half of the time with a marking
+                # file (one more input whose handling must not depend on anything else)
+                extra = []
+                if (hist["cases"] + len(b)) % 2 == 0:
+                    mkf = os.path.join(tmp, "marking.txt")
+                    open(mkf, "w").write("Confidential\nDo not distribute\n")
+                    extra = ["--marking", mkf]
                 for k, (label, main_arg, inc_args, cwd) in enumerate(variants):
                     out = os.path.join(tmp, f"out-{b}-{k}")
                     if b in ("rust", "java"):
                         os.makedirs(out, exist_ok=True)
-                    rc = run_variant(ctx, main_arg, inc_args, b, out, cwd)
+                    elif k % 3 == 1:
+                        # what the target held before must not matter: a longer, unrelated file
+                        with open(out, "w") as fh_:
+                            fh_.write("/* stale */\n" * 20000)
+                    rc = run_variant(ctx, main_arg, inc_args, b, out, cwd, extra=extra)
                     hist["runs"] += 1
                     snaps.append((label, rc, snapshot(out)))
                 hist["variants_per_backend"] = len(variants)
